@@ -155,6 +155,11 @@ func init() {
 			in.noMerge = !(t.IsConst() && t.u == 1) || os.Getenv("VERIF_NOMERGE") != ""
 			return unit(), true
 		},
+		"vLeanAsserts": func(in *Interp, fn *ssa.Function, a []Value, s ssa.Instruction) (Value, bool) {
+			t := in.term(a[0])
+			in.ex.leanAsserts = t.IsConst() && t.u == 1
+			return unit(), true
+		},
 		"vInterp": func(in *Interp, fn *ssa.Function, a []Value, s ssa.Instruction) (Value, bool) {
 			return in.tt.Bool(true), true
 		},
